@@ -273,4 +273,44 @@ MUTANTS = [
         sorted_original.sort(axis=1)
 
         ranks = phase_randomized_data""")]},
+ {"name": "c17_geo_target_may_exist", "property": "C17", "edits": [
+   (CPYX, "(A[s,l] == 0 and A[t,k] == 0) and", "(A[s,l] == 0) and")]},
+ {"name": "c17_geo_links_may_share_node", "property": "C17", "edits": [
+   (CPYX, "if ((s != k and s != l and t != k and t != l) and", "if ((s != k and t != k and t != l) and")]},
+ {"name": "c17_cross_swap_same_value", "property": "C17", "edits": [
+   (CPYX, "        cross_links[e2, 1] = b\n", "        cross_links[e2, 1] = cross_links[e1, 1]\n")]},
+ {"name": "c17_cross_overwrite_one_direction", "property": "C17", "edits": [
+   (CPYX, "            A[n1, n2] = A[n2, n1] = cross_A[i, j]", "            A[n1, n2] = cross_A[i, j]")]},
+ {"name": "c17_erdos_renyi_one_link_short", "property": "C17", "edits": [
+   (NW, "graph = igraph.Graph.Erdos_Renyi(n=n_nodes, m=n_links)", "graph = igraph.Graph.Erdos_Renyi(n=n_nodes, m=max(n_links - 1, 0))")]},
+ {"name": "c17_ba_forgets_last_child", "property": "C17", "edits": [
+   (NW, "                last_child[i] = j\n", "")]},
+ {"name": "c17_geo2_uses_grid_distance", "property": "C17", "edits": [
+   ("src/pyunicorn/core/spatial_network.py", """        E = int(self.n_links)
+        #  Collect adjacency and distance matrices
+        A = to_cy(self.adjacency, ADJ)
+        D = to_cy(distance_matrix, FIELD)
+
+        #  Define for brevity
+        eps = float(inaccuracy)
+
+        #  Get edge list
+        edges = to_cy(np.array(self.graph.get_edgelist()), NODE)
+
+        _randomly_rewire_geomodel_II(""", """        E = int(self.n_links)
+        #  Collect adjacency and distance matrices
+        A = to_cy(self.adjacency, ADJ)
+        D = to_cy(self.grid.distance(), FIELD)
+
+        #  Define for brevity
+        eps = float(inaccuracy)
+
+        #  Get edge list
+        edges = to_cy(np.array(self.graph.get_edgelist()), NODE)
+
+        _randomly_rewire_geomodel_II(""")]},
+ {"name": "c17_geo_len_cond_regrouped", "property": "C17", "edits": [
+   (CPYX, """            (abs(D[s,t] - D[k,t]) < eps and abs(D[k,l] - D[s,l]) < eps) or
+            (abs(D[s,t] - D[s,l]) < eps and abs(D[k,l] - D[k,t]) < eps))""", """            (abs(D[s,t] - D[k,t]) < eps or abs(D[s,t] - D[s,l]) < eps) and
+            (abs(D[k,l] - D[s,l]) < eps or abs(D[k,l] - D[k,t]) < eps))""")]},
 ]
